@@ -412,6 +412,32 @@ def declared(proj):
     return rel, nograph
 
 
+def known_defect_view(proj, rel):
+    """The declared relation as FORD is known to derive it (recorded findings, replayed on every run):
+       16  module-procedure-impl-edge: no interface -> implementation arrow when the implementation is
+           written `module procedure x`;
+       32  external-procedure-call-unresolved: a call of a top-level external procedure (also a recursive
+           one) is kept as a bare name.
+    Returns (adjusted relation, mask of the adjustments that changed something)."""
+    import copy
+    adj = copy.deepcopy(rel)
+    mask = 0
+    units = [u for f in proj["files"] for u in f]
+    extprocs = {u["name"] for u in units if u["kind"] == "extproc"}
+    for u in units:
+        if u["kind"] == "submodule" and u["impl_style"] == "procedure":
+            for x in u["impl"]:
+                if adj[("iface", x)]["modimpl"] is not None:
+                    adj[("iface", x)]["modimpl"] = None
+                    mask |= 16
+    for key, e in adj.items():
+        new = [("str", "proc", c[1]) if c[0] == "proc" and c[1] in extprocs else c for c in e["calls"]]
+        if new != e["calls"]:
+            e["calls"] = new
+            mask |= 32
+    return adj, mask
+
+
 def hash_name(n):
     return sum(map(ord, n))
 
